@@ -245,7 +245,7 @@ pub fn specs() -> Vec<CheckSpec> {
             stub: NO_STUB,
             assumptions: &["valid histories as stated in the property; batch size <= step size", "at most 5 instructions per step that are not pinned by an arrival timestamp (cancels / modifies); runs whose belief set exceeds 256 states are closed as inconclusive (counted)", "sampling, not enumeration"],
             explanation: "schedule-belief-set oracle: some permutation of the submitted batch, each instruction processed exactly once at time start+i, must reproduce the complete observation",
-            expected_probes: &["steered_schedule", "steering_hit", "non_identity_schedule", "step_with_trades", "plain_book_replays", "trading_halt"],
+            expected_probes: &["steered_schedule", "steering_hit", "non_identity_schedule", "step_with_trades", "plain_book_replays", "trading_halt", "batch_equals_step_size"],
         },
         CheckSpec {
             id: "C09",
